@@ -89,3 +89,60 @@ def ecall_fault_under_stall():
             check("younger_had_no_effect_%d" % older, int(st.register_file.registers[7]) == int(regs0[7]) and int(st.register_file.registers[8]) == int(regs0[8]))
             continue
         check("must_fault_%d" % older, False)
+
+
+# ---- with a data cache a load/store that crosses a word boundary is a run-time fault of its own kind (ByteOffsetError
+# from the cache system): it must be reported like every other one
+WIDTH = {"lh": 2, "lhu": 2, "lw": 4, "sh": 2, "sw": 4}
+
+
+def crossing_effect(mn, st, regs0, pc):
+    rd, rs1, rs2 = sym_int("rd", 0, 31), sym_int("rs1", 0, 31), sym_int("rs2", 0, 31)
+    imm = sym_int("imm", -2 ** 40, 2 ** 40)
+    e = S.step(mn, rd, rs1, rs2, imm, lambda i: int(regs0[i]), lambda a: byte_at(st.memory, a), pc, LO)
+    a = S.u32(int(regs0[rs1]) + S.sext(imm, 12))
+    e.fault = e.fault | (a % 4 + WIDTH[mn] > 4)
+    return e
+
+
+def cached_fault_single(mn):
+    @unit("C15/single-cycle/fault-report/with-data-cache/" + mn, expect_reach=("fault", "normal"))
+    def u():
+        st, regs0 = havoc_state()
+        st.memory = word_contained_memory(st)
+        ins, rd, rs1, rs2, imm = build(mn)
+        pc = sym_int("pc", 0, IMEM_TOP - 4)
+        place(st, ins, pc)
+        run_and_compare(st, regs0, ins, pc, crossing_effect(mn, st, regs0, pc))
+
+
+def cached_fault_five(mn):
+    @unit("C15/five-stage/fault-report/with-data-cache/" + mn, expect_reach=("fault", "normal"))
+    def u():
+        def prep(st, regs0):
+            st.memory = word_contained_memory(st)
+        single_instruction(mn, e_builder=lambda st, regs0, pc: crossing_effect(mn, st, regs0, pc), prepare=prep)
+
+
+for _mn in ("lh", "lw", "sh", "sw"):
+    cached_fault_single(_mn)
+    cached_fault_five(_mn)
+
+
+@unit("C15/run-time-errors-are-printable")
+def printable():
+    """the wrappers put repr(error) into the report: every run-time error class prints, whatever its fields hold"""
+    from architecture_simulator.util.integer_manipulation import ByteOffsetError
+    from architecture_simulator.uarch.memory.memory import MemoryAddressError, UnsupportedFunctionError
+    from architecture_simulator.simulation.runtime_errors import InstructionExecutionException, StepSequenceError
+    a, b, c = sym_int("a", 0), sym_int("b", 0), sym_int("c", 0)
+    r = ByteOffsetError(a, b).__repr__()
+    check("ByteOffsetError", type(r) is str)
+    r = MemoryAddressError(address=a, min_address_incl=b, max_address_incl=c, memory_type="data memory").__repr__()
+    check("MemoryAddressError", type(r) is str)
+    r = UnsupportedFunctionError("byte-wise addressing", "half_word").__repr__()
+    check("UnsupportedFunctionError", type(r) is str)
+    r = InstructionExecutionException(address=a, instruction_repr="lw x1, 0(x2)", error_message="boom").__repr__()
+    check("InstructionExecutionException", type(r) is str)
+    r = StepSequenceError("first before second").__repr__()
+    check("StepSequenceError", type(r) is str)
